@@ -1,9 +1,10 @@
 import Sop.Model.StoreRepo
 import Sop.Model.StoreRepoLock
+import Sop.Model.StoreRepoCommit
 import Sop.Driver.Util
 /-! Line protocol of C12 over `Sop.StoreRepo` (cases `single` / `repl`) and over `Sop.StoreRepoLock` (cases
 `lock single` / `lock repl`: schedules of `StoreRepository.Add` / `Remove` / `NewBtree` parked at their L2 cache calls).
-`drv_c12 --legacy` runs the model of the unrepaired `NewBtree`. -/
+Cases `tx …` run over `Sop.StoreRepoCommit` (one creating transaction's Commit round by round). `drv_c12 --legacy` runs the model of the unrepaired `NewBtree`. -/
 namespace Sop.Driver.C12
 open Sop.Driver Sop.StoreRepo
 
@@ -60,14 +61,43 @@ def stepLine (s : StoreRepoLock.State) (ws : List String) : StoreRepoLock.State 
   | _ => (s, "bad-op")
 end L
 
+/-! the commit-round cases (header `tx`) -/
+namespace T
+open Sop.StoreRepoCommit
+
+def parseOp (ws : List String) : Option StoreRepoCommit.Op :=
+  match ws with
+  | ["begin"] => some .begin
+  | ["new", n, slot, u] => do pure (.new n (← parseOpts slot u))
+  | ["open", n] => some (.open_ n)
+  | ["add", n, k, v] => do pure (.add n (← k.toInt?) v)
+  | ["conflict"] => some .conflict
+  | ["finish", ok, re] => do pure (.finish (← boolOf ok) (← boolOf re))
+  | ["rollback"] => some .rollback
+  | ["otheradd", n, k, v] => do pure (.otherAdd n (← k.toInt?) v)
+  | ["othernew", n, slot, u] => do pure (.otherNew n (← parseOpts slot u))
+  | ["otherremove", n] => some (.otherRemove n)
+  | _ => none
+
+def stepLine (s : StoreRepoCommit.State) (ws : List String) : StoreRepoCommit.State × String :=
+  match ws with
+  | ["dump"] => (s, StoreRepoCommit.dump s)
+  | _ => match parseOp ws with
+    | some op => StoreRepoCommit.step false s op
+    | none => (s, "bad-op")
+end T
+
 structure DS where
   fine : Bool := false
+  tx : Bool := false
+  t : StoreRepoCommit.State := {}
   c : State := {}
   l : StoreRepoLock.State := {}
 
 def run (fixed : Bool) : IO Unit :=
-  runLoop (fun hdr => ({ fine := hdr.head? == some "lock" } : DS)) fun d ws =>
-    if d.fine then let r := L.stepLine d.l ws; ({ d with l := r.1 }, r.2)
+  runLoop (fun hdr => ({ fine := hdr.head? == some "lock", tx := hdr.head? == some "tx" } : DS)) fun d ws =>
+    if d.tx then let r := T.stepLine d.t ws; ({ d with t := r.1 }, r.2)
+    else if d.fine then let r := L.stepLine d.l ws; ({ d with l := r.1 }, r.2)
     else let r := stepLine fixed d.c ws; ({ d with c := r.1 }, r.2)
 end Sop.Driver.C12
 
